@@ -156,6 +156,9 @@ fn observers() -> Vec<(String, String, Option<String>)> {
         ("module".into(), "export const obs = 1;\nlet dead_a = 'm'; [typeof dead_b, typeof dead_exported, dead_a].join(',')".into(), Some("/dead/main.ts".into())),
         ("await".into(), "const obs_v = await Promise.resolve(5); const obs_w = await (async function(){ return obs_v + 1; })(); [obs_v, obs_w].join(',')".into(), Some("/obs/await.ts".into())),
         ("order".into(), "import { order } from \"tsrun:host\";\nconst obs_r = await order({obs: 1}); 'answer:' + obs_r".into(), Some("/obs/order.ts".into())),
+        // a later program imports the paths of dead entry modules: they were never loaded, so the host must be asked for them
+        ("import-dead".into(), "import * as d1 from '/dead/main.ts';\nimport * as d2 from '/dead/bare.ts';\nimport * as d3 from '/dead/orders.ts';\n[Object.keys(d1).join(), Object.keys(d2).join(), Object.keys(d3).join()].join('|')".into(), Some("/obs/importer.ts".into())),
+        ("import-dead-named".into(), "import { dead_exported } from '/dead/bare.ts';\ntypeof dead_exported".into(), Some("/obs/importer2.ts".into())),
     ]
 }
 
@@ -187,7 +190,11 @@ fn run_to_end(interp: &mut Interpreter, src: &str, path: Option<&str>, max_steps
                 }
                 interp.fulfill_orders(responses);
             }
-            Ok(StepResult::NeedImports(_)) => return "need-imports".into(),
+            Ok(StepResult::NeedImports(reqs)) => {
+                let mut ps: Vec<String> = reqs.iter().map(|r| r.resolved_path.as_str().to_string()).collect();
+                ps.sort();
+                return format!("need-imports:{}", ps.join(","));
+            }
             Ok(StepResult::Continue) => {}
         }
         if steps >= max_steps {
@@ -214,6 +221,10 @@ fn run_abandon(interp: &mut Interpreter, src: &str, s: u64) -> bool {
 
 fn observe(interp: &mut Interpreter) -> Vec<String> {
     let mut out = Vec::new();
+    // what the host sees of the dead runs before any further program: no export table
+    let mut names = tsrun::api::get_export_names(interp);
+    names.sort();
+    out.push(format!("host-exports=>[{}] dead_exported={}", names.join(","), tsrun::api::get_export(interp, "dead_exported").is_some()));
     for (name, src, path) in observers() {
         let depth0 = {
             // call depth right after prepare, before the first step
@@ -362,8 +373,14 @@ fn judge(r: &mut UnitResult, cs: &[Case]) {
         let obs: Vec<&str> = f[3].split('\u{4}').collect();
         for (k, o) in obs.iter().enumerate() {
             let want = reference.get(k).map(|s| s.as_str()).unwrap_or("");
+            let oname = o.split("=>").next().unwrap_or("?");
+            // a run of the history that *completed* (e.g. an async function whose rejection
+            // nobody handles) legitimately leaves its module loaded and its exports visible
+            let completed = f[2].split(',').any(|e| e.starts_with("value:") || e == "done");
+            if completed && (oname == "host-exports" || oname.starts_with("import-dead")) {
+                continue;
+            }
             if *o != want {
-                let oname = o.split("=>").next().unwrap_or("?");
                 // signature: class of the dead run (without abandonment step / sequence index) + observer
                 let class = cs[ci].id.split('@').next().unwrap_or("").to_string();
                 let class = if class.starts_with("seq") { "sequence".to_string() } else { class };
